@@ -1,5 +1,5 @@
 """C08 -- initial-potential load vector (DESIGN.md E2/E5/E8)."""
-from .. import ipotrules, quadtree, quadalg, causal
+from .. import ipotrules, quadtree, quadalg, causal, effects
 from .. import problems_cert as pc
 from ..cas import run_tasks
 from . import c03
@@ -29,6 +29,8 @@ META = {
 def run(prog, report, tier):
     quadtree.check_scalar(prog, report)
     quadtree.check_bdr_search(prog, report)
+    quadtree.check_tolerances(prog, report)
+    effects.check_cache(prog, report)
     ipotrules.check_prefactor(prog, report)
     deg3 = 4 if tier == 'quick' else 7
     quadalg.check_duffy(prog, report, 'DuffySchemeIdentical3D', 'scheme3d',
